@@ -161,7 +161,10 @@ def run(ctx):
             soft1 = dem(yt, noise_var=1.0).reshape(len(ys), -1).tolist()
             meta.append(((name, cfg), [hard[i] for i in sel], [soft1[i] for i in sel], cst))
     # ------------------------------------------------------------------ schemes with memory: sign / scaling on the implementation
-    stateful = [("DPSK", "order=%d,gray=%s" % (o, g), M.DPSKModulator(o, gray_coding=g), M.DPSKDemodulator(o, gray_coding=g), o.bit_length() - 1) for o in (2, 4, 8) for g in (True, False)]
+    stateful = [("DPSK", "order=%d,gray=%s" % (o, g), M.DPSKModulator(o, gray_coding=g), M.DPSKDemodulator(o, gray_coding=g), o.bit_length() - 1) for o in (2, 4, 8, 16) for g in (True, False)]
+    # the same demodulators selected through the alternative keywords (bits_per_symbol=, gray_coded=): decisions against the modulator's own constellation
+    stateful += [("DPSK", "bits_per_symbol=%d,gray_coded=False" % b_, M.DPSKModulator(1 << b_, gray_coding=False), M.DPSKDemodulator(bits_per_symbol=b_, gray_coded=False), b_) for b_ in (1, 2, 3, 4)]
+    stateful += [("DPSK", "order=%d,gray_coded=True" % o, M.DPSKModulator(o, gray_coding=True), M.DPSKDemodulator(order=o, gray_coded=True), o.bit_length() - 1) for o in (4, 8)]
     stateful.append(("OQPSK", "normalize=True", M.OQPSKModulator(), M.OQPSKDemodulator(), 2))
     stateful.append(("Pi4QPSK", "gray=False", M.Pi4QPSKModulator(gray_coded=False), M.Pi4QPSKDemodulator(), 2))
     for name, cfg, mod, dem, b in stateful:
@@ -182,6 +185,24 @@ def run(ctx):
             s2 = dem(y, noise_var=2.0).reshape(-1).tolist()
             ctx.count("soft-outputs", len(s1))
             ctx.nontriv((name, cfg, trial))
+            if name == "DPSK":
+                # the decision variable y[i] * conj(y[i-1]) is decided as the nearest (in angle) point of the constellation that the
+                # MODULATOR of this configuration publishes, with that point's bit pattern
+                import cmath
+                import math
+                pts_ = [complex(v) for v in mod.constellation.reshape(-1).tolist()]
+                pats_ = [[int(v) for v in r_] for r_ in mod.bit_patterns.tolist()]
+                yy = [complex(v) for v in y.reshape(-1).tolist()]
+                for i in range(1, n):
+                    z = yy[i] * yy[i - 1].conjugate()
+                    d = sorted((abs((cmath.phase(z) - cmath.phase(p_) + math.pi) % (2 * math.pi) - math.pi), j) for j, p_ in enumerate(pts_))
+                    if len(d) > 1 and d[1][0] - d[0][0] < 1e-3:
+                        continue
+                    got_ = [int(v) for v in h[(i - 1) * b:i * b]]
+                    if got_ != pats_[d[0][1]]:
+                        ctx.violation(key % "nearest-point", "%s(%s): decision variable %s is nearest to the modulator's point %s labelled %s but is decided as %s" % (
+                            name, cfg, z, pts_[d[0][1]], pats_[d[0][1]], got_), dict(rep, y=[[v.real, v.imag] for v in yy]))
+                        break
             for i, (hv, a, c2) in enumerate(zip(h, s1, s2)):
                 if abs(a) > 1e-4 and (a > 0) != (hv == 0):
                     ctx.violation(key % "llr-vs-hard", "%s(%s): soft output %g of bit %d disagrees with the hard decision %d on the same sample" % (name, cfg, a, i, int(hv)), rep)
